@@ -56,7 +56,7 @@ def run(ctx, report: Report) -> None:
                              f'skip) of its siblings, so "A, B" is no longer the union of A and B')
 
     # ---- R2 ----------------------------------------------------------------------------------------------
-    r2 = report.rule('C05-R2', 'alternative loop: OR of ANDs xor is_not', floor=3)
+    r2 = report.rule('C05-R2', 'alternative loop: OR of ANDs xor is_not', floor=2)
     _, ms = src.func('css_match.CSSMatch.match_selectors')
     loops = [n for n in ast.walk(ms) if isinstance(n, ast.For)]
     if len(loops) != 1:
@@ -92,7 +92,7 @@ def run(ctx, report: Report) -> None:
         r2.violation('match_selectors is_not source', mmod.where(ms), '`is_not` is no longer taken from the list being evaluated')
 
     # ---- R3 ----------------------------------------------------------------------------------------------
-    r3 = report.rule('C05-R3', 'HTML-only context is restored per activation; the gate is document-level', floor=2)
+    r3 = report.rule('C05-R3', 'HTML-only context is restored per activation; the gate is document-level', floor=45)
     from .c04 import swap_restore
     attrs, problems = swap_restore(mmod, ms)
     r3.instance({'attributes_swapped': sorted(attrs), 'problems': [f'{a}: {st}' for a, st, _, _ in problems]}, key='swap')
@@ -147,7 +147,7 @@ def run(ctx, report: Report) -> None:
     list_context_table(ctx, r3)
 
     # ---- R4 ----------------------------------------------------------------------------------------------
-    r4 = report.rule('C05-R4', 'list flags by pseudo-class', floor=5)
+    r4 = report.rule('C05-R4', 'list flags by pseudo-class', floor=2)
     _, po = src.func('css_parser.CSSParser.parse_pseudo_open')
     F = {k: inv.const('css_parser', k) for k in ('FLG_PSEUDO', 'FLG_OPEN', 'FLG_NOT', 'FLG_RELATIVE', 'FLG_FORGIVE')}
     want = {':not': F['FLG_NOT'], ':has': F['FLG_RELATIVE'], ':is': F['FLG_FORGIVE'], ':where': F['FLG_FORGIVE'], ':matches': 0}
